@@ -109,6 +109,14 @@ def check_batch(o):
                         dense64 = _dense(m.precision)
                     elif not np.allclose(dense64, _dense(m.precision), atol=1e-10, rtol=0):
                         bad.append((tag + ": sparse and dense precision differ", {"edges": c["E"]}, None))
+            # the object-backed class (samples and queries are shapes) on the same data
+            from menpo.model import GMRFModel
+
+            tag = "GMRFModel, %s graph, %s storage" % (gname, "sparse" if sparse else "dense")
+            sm = _ShapeModel(GMRFModel(_ShapeModel.shapes(data), g, mode=c["mode"], sparse=sparse, bias=c["bias"]))
+            r = _check_stats(sm, o["stats"], o["queries"], tag, 1e-9, nv, c["E"])
+            if r:
+                bad.append((r, {"edges": c["E"], "mode": c["mode"], "bias": c["bias"]}, None))
     return bad
 
 
